@@ -296,6 +296,15 @@ def always_pop(repo: Repo, rep):
     gcfg = cfg_of(g, all_raise=True)
     ent = [n for n, c in _calls_of(g, gcfg, cg, "_global_state.py::enter_snapshot_context")]
     lv = [n for n, c in _calls_of(g, gcfg, cg, "_global_state.py::leave_snapshot_context")]
+    # the same two steps written out in place: `<global> = State()` pushes, `<global> = <stack>.pop()` pops
+    gl = {nm for s in ast.walk(g.node) if isinstance(s, ast.Global) for nm in s.names}
+    for n in gcfg.stmts(ast.Assign):
+        if any(isinstance(t, ast.Name) and t.id in gl for t in n.ast.targets):
+            v = n.ast.value
+            if isinstance(v, ast.Call) and norm(v.func) == "State":
+                ent.append(n)
+            elif isinstance(v, ast.Call) and isinstance(v.func, ast.Attribute) and v.func.attr == "pop":
+                lv.append(n)
     rep.floor("R-ALWAYS-POP", "enter_snapshot_context in snapshot_env", len(ent), 1)
     for e in ent:
         starts = [b for b, l in e.succ if l != "exc"]
